@@ -12,6 +12,7 @@ import (
 	"strings"
 	"sync"
 	"time"
+	"unsafe"
 
 	"pgregory.net/rapid"
 )
@@ -46,7 +47,17 @@ var scalarTypes = map[string]reflect.Type{
 	"bytes": reflect.TypeOf([]byte(nil)), "number": numberType, "raw": rawType,
 	"time": reflect.TypeOf(time.Time{}), "duration": reflect.TypeOf(time.Duration(0)),
 	"any": reflect.TypeOf((*any)(nil)).Elem(),
+	// kinds encoding/json does not support (C06 only: must fail cleanly, never panic)
+	"complex128": reflect.TypeOf(complex128(0)), "complex64": reflect.TypeOf(complex64(0)),
+	"chan": reflect.TypeOf((chan int)(nil)), "func": reflect.TypeOf((func())(nil)),
+	"unsafeptr": reflect.TypeOf(unsafe.Pointer(nil)),
 }
+
+// UnsupportedKinds are only generated when TypeOpts.Unsupported is set.
+var UnsupportedKinds = []string{"complex128", "complex64", "chan", "func", "unsafeptr"}
+
+// BadMapKeyKinds: map key kinds encoding/json rejects.
+var BadMapKeyKinds = []string{"float64", "bool", "complex128", "@EmbA", "any", "@NamedBool", "@NamedF64"}
 
 var typeMemo sync.Map // string -> reflect.Type
 
@@ -171,6 +182,8 @@ type TypeOpts struct {
 	Avoid map[string]bool
 	// Leaves restricts corpus leaves: nil = all.
 	NoCorpus bool
+	// Unsupported also generates kinds and map key types encoding/json rejects.
+	Unsupported bool
 	// pool collects the struct descriptors generated so far so that the same
 	// struct type can be reused at several positions of one type tree.
 	pool *[]TypeDesc
@@ -212,6 +225,9 @@ func hasPtrRecv(d *TypeDesc) bool {
 }
 
 func genLeaf(rt *rapid.T, o TypeOpts) TypeDesc {
+	if o.Unsupported && rapid.IntRange(0, 7).Draw(rt, "unsup") == 0 {
+		return TypeDesc{K: rapid.SampledFrom(UnsupportedKinds).Draw(rt, "unsupkind")}
+	}
 	if !o.NoCorpus && rapid.IntRange(0, 4).Draw(rt, "corpus") == 0 {
 		for tries := 0; tries < 4; tries++ {
 			n := rapid.SampledFrom(CorpusNames).Draw(rt, "cname")
@@ -254,6 +270,9 @@ func genType(rt *rapid.T, o TypeOpts, depth int, top bool) TypeDesc {
 			if !o.avoid("key:" + k.K) {
 				break
 			}
+		}
+		if o.Unsupported && rapid.IntRange(0, 5).Draw(rt, "badkey") == 0 {
+			k = TypeDesc{K: rapid.SampledFrom(BadMapKeyKinds).Draw(rt, "badkeykind")}
 		}
 		if !o.avoid("key:@NamedStrT") && rapid.IntRange(0, 19).Draw(rt, "nstkey") == 0 {
 			k = TypeDesc{K: "@NamedStrT"}
